@@ -32,9 +32,13 @@ Theorem C11_commit_unfixed_refuted :
 Proof. exact commit_unfixed_refuted. Qed.
 Print Assumptions C11_commit_unfixed_refuted.
 
-(* execute: whatever is produced is accepted, for every role, phase and failure pattern *)
+(* execute: whatever is produced is accepted, for every role, phase and failure pattern.
+   [pending_known g st] is the stable-home-configuration hypothesis: the previous outcome's pending reports name chains
+   with a configured F only.  The merges that produced that outcome need an F for every chain they keep, so it holds as
+   long as the home-chain configuration did not lose a chain between two rounds; since the repair of F13d validation
+   rejects observations that mention a chain without F, and the GetMessages observation repeats the pending reports. *)
 Theorem C11_exec_valid : forall g i st phase ob,
-  cfg_ok g i = true -> values_ok st = true ->
+  cfg_ok g i = true -> values_ok st = true -> pending_known g st = true ->
   observe_exec g i st phase = Ok ob -> validate_exec g i ob = true.
 Proof. intros g i st phase ob Hc Hv. exact (exec_honest_valid g i st Hc Hv phase ob). Qed.
 Print Assumptions C11_exec_valid.
@@ -46,12 +50,13 @@ Print Assumptions C11_exec_no_panic.
 (* execute, full strength: with every call succeeding an observation is produced and accepted, for every role
    assignment, oracle, chain state and phase.  (Holds since the repairs of F18b, F18c, F18d.) *)
 Theorem C11_exec : forall g i st phase,
-  cfg_ok g i = true -> values_ok st = true -> no_failures st -> dest_priced g st = true -> (phase <= 2)%N ->
+  cfg_ok g i = true -> values_ok st = true -> pending_known g st = true ->
+  no_failures st -> dest_priced g st = true -> (phase <= 2)%N ->
   exists ob, observe_exec g i st phase = Ok ob /\ validate_exec g i ob = true.
 Proof.
-  intros g i st phase Hc Hv Hn Hpr Hp.
+  intros g i st phase Hc Hv Hpk Hn Hpr Hp.
   destruct (exec_produced g i st phase Hn Hpr Hp) as [ob Hob].
-  exists ob. split; [exact Hob|]. exact (exec_honest_valid g i st Hc Hv phase ob Hob).
+  exists ob. split; [exact Hob|]. exact (exec_honest_valid g i st Hc Hv phase ob Hpk Hob).
 Qed.
 Print Assumptions C11_exec.
 
